@@ -85,6 +85,77 @@ def _line_cb(filename, line):
         s.point(("line", filename.rsplit("/", 1)[-1], line))
 
 
+def _call_cb(filename, name):
+    s = _CUR[0]
+    if s is not None and getattr(s, "trace_calls", None) and filename in s.trace_calls:
+        s.point(("call", filename.rsplit("/", 1)[-1], name))
+
+
+# ---- one driver per codemod: two of its own trigger seeds + a file of generic constructs, scheduling points at every function
+# entry of the module(s) that define the codemod's transformer classes (visitor-callback granularity)
+FODDER = b"""import os
+
+
+def generic(a, b=None):
+    if a:
+        b = [a]
+    for x in b or []:
+        with open(os.devnull) as fh:
+            fh.read()
+    try:
+        return a + 1
+    except TypeError:
+        raise
+"""
+_CALL_MODULES = {}
+
+
+def codemod_spec(cm, n_seeds=1):
+    """n_seeds of the codemod's own (shortest) trigger seeds + the file of generic constructs."""
+    from .. import progspace
+
+    seeds = sorted((sd for sd in progspace.load_seeds() if sd.codemod == cm and sd.kind == "trigger" and sd.batchable and sd.compiles and not sd.tool), key=lambda sd: len(sd.input))[:n_seeds]
+    if not seeds:
+        return None
+    files = {"c/plain.py": FODDER}
+    for i, sd in enumerate(seeds):
+        files[f"{'ab'[i]}/seed{i}.py"] = sd.input.encode()
+    return {"codemod": cm, "files": files}
+
+
+def stateful_codemods():
+    """Find-and-fix codemods whose transformer classes keep state of their own (an __init__, or containers on the class):
+    the ones for which two files in flight at once can meet in something else than the objects the framework hands them."""
+    drive.init_inproc()
+    from codemodder import registry
+
+    out = []
+    for c in registry.load_registered_codemods().codemods:
+        if not c.id.startswith("pixee:") or codemod_spec(c.id) is None:
+            continue
+        for cls in getattr(getattr(c, "transformer", None), "transformers", []) or []:
+            for k in cls.__mro__:
+                if not k.__module__.startswith(("core_codemods", "codemodder.codemods.transformations", "codemodder.codemods.imported_call", "codemodder.utils.clean")):
+                    continue
+                own = "__init__" in k.__dict__ or any(isinstance(v, (list, dict, set)) and not n.startswith("__") and not n.isupper() for n, v in k.__dict__.items())
+                if own and c.id not in out:
+                    out.append(c.id)
+    return out
+
+
+def _transformer_modules(codemod):
+    import importlib
+
+    mods = set()
+    tr = getattr(codemod, "transformer", None)
+    for cls in getattr(tr, "transformers", []) or []:
+        for k in cls.__mro__:
+            if k.__module__.startswith("core_codemods") or k.__module__ in ("codemodder.codemods.transformations.clean_imports", "codemodder.codemods.transformations.remove_unused_imports",
+                                                                                "codemodder.codemods.imported_call_modifier", "codemodder.utils.clean_code"):
+                mods.add(k.__module__)
+    return [importlib.import_module(m) for m in sorted(mods)]
+
+
 def install_lines():
     if not _LINES["n"]:
         import importlib
@@ -219,8 +290,8 @@ def _state(driver):
     import codemodder.codemods.semgrep as cs
     from codemodder import providers, registry
 
-    spec = DRIVERS[driver]
-    root = core.scratch_root() / f"sched-{driver}"
+    spec = codemod_spec(driver.split(":", 2)[2], int(driver.split(":", 2)[1])) if driver.startswith("codemod:") else DRIVERS[driver]
+    root = core.scratch_root() / f"sched-{driver.replace(':', '_').replace('/', '_')}"
     reg = registry.load_registered_codemods()
     codemod = None if spec.get("plugin") else next(c for c in reg.codemods if c.id == spec["codemod"])
     memo = {}
@@ -267,6 +338,12 @@ def run_once(driver, prefix, gran="coarse", workers=None):
     if gran == "line":
         install_lines()
     s = sched.Scheduler(prefix, trace_lines=(gran == "line"))
+    if gran == "calls":
+        mods = _transformer_modules(codemod)
+        for m in mods:
+            if m.__name__ not in _CALL_MODULES:
+                _CALL_MODULES[m.__name__] = sched.install_call_events([m], _call_cb)
+        s.trace_calls = {m.__file__ for m in mods}
     real_tpe, real_sem = bc.ThreadPoolExecutor, cs.semgrep_run
     bc.ThreadPoolExecutor = sched.make_executor(s)
     cs.semgrep_run = st["memo_run"]
@@ -372,3 +449,25 @@ def explore_cached(driver, gran, bound):
 
     val, hit = cache.cached(f"sched-{driver}-{gran}-{bound}", compute)
     return val
+
+
+def codemod_race_job(arg):
+    """Every interleaving with <= 1 preemption of the per-file tasks of one codemod, visitor-callback granularity, in this worker."""
+    cm, n_seeds = arg
+    if codemod_spec(cm, n_seeds) is None:
+        return cm, 0, 0, None, 0
+    driver = f"codemod:{n_seeds}:{cm}"
+    pts = [0]
+
+    def run(prefix):
+        s, h, _ = run_once(driver, prefix, "calls")
+        pts[0] = max(pts[0], len(s.points))
+        return s, h
+
+    s0, h0 = run([])
+    s1, h1 = run(s0.choices)
+    if h0 != h1 or s0.choices != s1.choices:
+        raise core.HarnessError(f"replaying the default schedule of {driver} is not deterministic")
+    n, outcomes, _ = sched.explore(run, 1)
+    alt = next((ch for h, ch in outcomes.items() if h != h0), None)
+    return cm, n, len(outcomes), alt, pts[0]
